@@ -290,8 +290,12 @@ def seeds(rng):
 
 # fields a partition leaves in every copy: what the identifier reads (a copy without them is another
 # transaction, or -- script_pub_key -- finding combine.sp-script-dropped) and tx_modifiable (handled apart)
-def _sticky(sec):
-    return set(spec()["idreads"][sec]) | {"tx_modifiable"}
+LOCK_FIELDS = {"required_time_lock_time", "required_height_lock_time"}
+
+
+def _sticky(sec, lockpart=False):
+    st = set(spec()["idreads"][sec]) | {"tx_modifiable"}
+    return st - LOCK_FIELDS if lockpart and sec == "in" else st
 
 
 def _empty_like(v):
@@ -306,14 +310,14 @@ def _empty_like(v):
     return None
 
 
-def partition(rng, base: Psbt, k: int):
+def partition(rng, base: Psbt, k: int, lockpart=False):
     """k copies of base; every mergeable field (every pair of a dict field) lands in a random non-empty set of copies."""
     copies = [deepcopy(base) for _ in range(k)]
     calls = spec()["calls"]
 
     def spread(objs, sec):
         for name, rule in calls[sec]:
-            if name in _sticky(sec) or rule == "modifiable":
+            if name in _sticky(sec, lockpart) or rule == "modifiable":
                 continue
             v = getattr(objs[0], name)
             if not v and v != 0:
@@ -769,6 +773,114 @@ def _o_falsy_later(w):
 
 ORACLES.update({"roles.fresh": _o_fresh, "convert.identity": _o_convert, "combine.falsy-later": _o_falsy_later})
 
+def _o_orders_lock(w):
+    """families whose required lock times are partitioned over the copies.  part=strict: nothing aliased or
+    modified; every flat order agrees (acceptance and result); an accepted grouping gives the flat result and
+    loses nothing; no grouping accepts what the flat combine refuses.  part=grouping: a grouping the flat combine
+    accepts is not refused half way."""
+    d = unpayload(w["payload"])
+    ps, exprs, part = d["psbts"], d["exprs"], w["part"]
+    before = [p.serialize() for p in ps]
+    ids = set().union(*[_mutable_ids(p) for p in ps])
+    want = set().union(*[_pairs(p) for p in ps])
+    res = {}
+    for t in exprs:
+        try:
+            r = eval_expr(t, ps)
+        except BTClibValueError as e:
+            res[t] = None
+            continue
+        except Exception as e:  # noqa: BLE001
+            return part != "strict", f"order {t}: raised {type(e).__name__}: {e}"
+        if part == "strict":
+            if [p.serialize() for p in ps] != before:
+                return False, f"order {t}: an operand was modified by combine"
+            if _mutable_ids(r) & ids:
+                return False, f"order {t}: the result shares a mutable object with an operand"
+            lost = want - _pairs(r)
+            if lost:
+                return False, f"order {t}: lost {sorted(lost)[:3]}"
+        res[t] = (r.serialize(), render(r))
+    flat = [t for t in exprs if all(not isinstance(x, tuple) for x in t)]
+    nested = [t for t in exprs if t not in flat]
+    facc = {res[t] is not None for t in flat}
+    if part == "strict":
+        if len(facc) > 1:
+            return False, "flat orders disagree on acceptance"
+        outs = {res[t] for t in flat if res[t] is not None}
+        if len(outs) > 1:
+            return False, "flat orders give different results"
+        for t in nested:
+            if res[t] is not None and not outs:
+                return False, f"grouping {t} accepted what the flat combine refuses"
+            if res[t] is not None and res[t] not in outs:
+                return False, f"grouping {t} gives another result than the flat combine"
+        return True, f"{len(exprs)} orders"
+    if True in facc:
+        bad = [t for t in nested if res[t] is None]
+        if bad:
+            return False, (f"combine of all {len(ps)} operands at once is accepted, grouping {bad[0]} is refused "
+                           f"({len(bad)} of {len(nested)} groupings)")
+    return True, "acceptance does not depend on the grouping here"
+
+
+def _lock3():
+    T = 1_700_000_000
+
+    def mk(*req):
+        return Psbt(2, [PsbtIn(previous_tx_id=b"\x11" * 32, output_index=i, required_height_lock_time=h,
+                               required_time_lock_time=t) for i, (h, t) in enumerate(req)],
+                    [PsbtOut(amount=1, script_pub_key=b"\x51")], 2, {})
+    return (mk((50, T), (None, T), (None, None)), mk((None, T), (50, T), (None, None)),
+            mk((None, T), (None, T), (None, T)))
+
+
+def tie_family(rng):
+    """copies of one v2 transaction (lock time T, a time) in which some PART of the copies gives every requiring
+    input a height although the whole never does: a randomised form of the witness of finding
+    combine.locktime-partition.grouping."""
+    T = rng.choice([500_000_000, 1_700_000_000, 0xFFFFFFFF])
+    m = rng.randrange(2, 4)                   # inputs that will carry a height somewhere
+    k = rng.randrange(3, 5)
+    hts = [rng.choice([1, 50, 499_999_999]) for _ in range(m)]
+    prev = [common.rand_bytes(rng, 32) for _ in range(m + 1)]
+    carriers = set([k - 1] + [j for j in range(k - 1) if rng.random() < 0.25])   # who states the last input's time
+    ps = []
+    for c in range(k):
+        ins = []
+        for j in range(m):
+            has_h = (j % (k - 1) == c) or (c < k - 1 and rng.random() < 0.2)
+            ins.append(PsbtIn(previous_tx_id=prev[j], output_index=j, required_time_lock_time=T,
+                              required_height_lock_time=hts[j] if has_h else None))
+        ins.append(PsbtIn(previous_tx_id=prev[m], output_index=m, required_time_lock_time=T if c in carriers else None))
+        p = Psbt(2, ins, [PsbtOut(amount=1, script_pub_key=b"\x51")], 2, {}, check_validity=False)
+        ps.append(p)
+    return ps
+
+
+def _o_lock_grouping(w):
+    """the deterministic witness: three psbts of one transaction (same unique id, lock time T) that do not conflict."""
+    a, b, c = _lock3()
+    if not (a.unique_id == b.unique_id == c.unique_id):
+        return True, "operands are not of one transaction"
+    acc = {}
+    for name, f in (("[a,b,c]", lambda: combine([a, b, c])), ("[a,[b,c]]", lambda: combine([a, combine([b, c])])),
+                    ("[[a,c],b]", lambda: combine([combine([a, c]), b])), ("[[a,b],c]", lambda: combine([combine([a, b]), c]))):
+        try:
+            acc[name] = f().serialize()
+        except BTClibValueError as e:
+            acc[name] = None
+    if acc["[a,b,c]"] is None:
+        return all(v is None for v in acc.values()), f"flat refused; groupings {acc}"
+    refused = [k for k, v in acc.items() if v is None]
+    same = len({v for v in acc.values() if v is not None}) == 1
+    return (not refused and same), (f"combine([a,b,c]) accepted; refused groupings: {refused or 'none'}; "
+                                    f"accepted ones equal: {same}")
+
+
+ORACLES.update({"combine.orders-lockpart": _o_orders_lock, "finding.locktime-grouping": _o_lock_grouping})
+
+
 # ------------------------------------------------------------------ streams
 def exprs_for(rng, k, ctx):
     perms = list(itertools.permutations(range(k)))
@@ -899,6 +1011,52 @@ def tamperings(rng, req: Psbt, ans: Psbt):
 def run(ctx):
     rng = ctx.rng
     fam_lines, conf_lines, tx_lines, conv_lines, sig_lines = [], [], [], [], []
+    GROUPING = "combine.locktime-partition.grouping"
+    ctx.check("finding.locktime-grouping", {}, key=GROUPING)
+    # ---- families whose REQUIRED LOCK TIMES are partitioned over the copies (v2)
+    n_lock = tries = 0
+    while n_lock < ctx.n(25, 200):
+        base, cls = lock_psbt(rng, rng.choice(["both", "both", "some-height", "some-time", "mixed", "time", "height"]))
+        if rng.random() < 0.7 and len(base.inputs) >= 2:
+            # the tie-break shape: one time for all, a height beside it on some inputs only, so that a PART of the
+            # copies can make every requiring input carry a height although the whole never does
+            T = rng.choice([500_000_000, 1_700_000_000, 0xFFFFFFFF])
+            hs = [rng.random() < 0.6 for _ in base.inputs]
+            hs[0], hs[-1] = True, False
+            for x, h in zip(base.inputs, hs):
+                x.required_time_lock_time = T
+                x.required_height_lock_time = rng.choice([1, 50, 499_999_999]) if h else None
+        try:
+            base.assert_valid()
+        except BTClibValueError:
+            continue
+        k = rng.choice([2, 3, 3, 4])
+        ps = partition(rng, base, k, lockpart=True)
+        if rng.random() < 0.4:
+            ps = tie_family(rng)
+            k = len(ps)
+            try:
+                for q in ps:
+                    q.assert_valid()
+            except BTClibValueError:
+                continue
+        try:    # keep the families that are ONE transaction's (same unique id) and really partition the lock times
+            one = len({p.unique_id for p in ps}) == 1
+        except BTClibValueError:
+            one = False
+        req = {tuple((i.required_height_lock_time, i.required_time_lock_time) for i in p.inputs) for p in ps}
+        tries += 1
+        if (not one or len(req) < 2) and tries < 40 * ctx.n(25, 200):
+            continue
+        n_lock += 1
+        ctx.count("family", f"lockpart k={k}" + ("" if one else " (other ids)"))
+        exprs = exprs_for(rng, len(ps), ctx)
+        pl = payload({"psbts": ps, "exprs": exprs})
+        ctx.check("combine.orders-lockpart", {"payload": pl, "part": "strict", "k": k})
+        ctx.check("combine.orders-lockpart", {"payload": pl, "part": "grouping", "k": k}, key=GROUPING)
+        toks = [render(p) for p in ps]
+        for t in rng.sample(exprs, min(len(exprs), 24 if ctx.tier == "quick" else 60)):
+            fam_lines.append(combine_line(t, ps, toks))
     n_fam = ctx.n(40, 300)
     for _ in range(n_fam):
         base, ps = family(rng, ctx)
